@@ -21,6 +21,10 @@ import (
 //	put <label> <contract20> <value> <f1> ... <fn>  -> raw key (hex) that appeared in the block overlay's write set
 //	get <label> <contract20> <f1> ... <fn>          -> value (hex) | nil
 //	del <label> <contract20> <f1> ... <fn>          -> raw key whose entry became a delete marker
+//	hold <label> <contract20> <f1> .. <fn> / <g1> .. <gm>   k1 := ConcatKey(c, f..) is kept while k2 := ConcatKey(c, g..) is
+//	                                                built; -> k1 (as it reads after k2 was built) and k2
+//	par <label> <contract20> <f1> .. <fn> / <g1> .. <gm>    two goroutines build their own key 300 times each and compare it
+//	                                                with the bytes written by hand -> ok | corrupt
 //
 // <label> names the construction site family (contract:shape index) and is ignored by the model. The property
 // oracle remembers which (contract, field list) wrote each raw key: a second, different field list producing the
@@ -59,9 +63,75 @@ func (f *keysFam) writeSet() map[string][]byte {
 	return m
 }
 
+func concatByHand(addr common.Address, fields [][]byte) []byte {
+	out := append([]byte{}, addr[:]...)
+	for _, x := range fields {
+		out = append(out, x...)
+	}
+	return out
+}
+
+func (f *keysFam) holdOrPar(r *hx.Run, op []string) string {
+	addr, err := common.AddressParseFromBytes(hx.UnHex(op[2]))
+	if err != nil {
+		return "bad-op"
+	}
+	var a, b [][]byte
+	cur := &a
+	for _, t := range op[3:] {
+		if t == "/" {
+			cur = &b
+			continue
+		}
+		*cur = append(*cur, hx.UnHex(t))
+	}
+	wantA, wantB := concatByHand(addr, a), concatByHand(addr, b)
+	if op[0] == "hold" {
+		k1 := utils.ConcatKey(addr, a...)
+		k2 := utils.ConcatKey(addr, b...)
+		if string(k1) != string(wantA) {
+			r.Viol("C17:key-changed-after-later-concat:"+op[1], fmt.Sprintf("k1 := ConcatKey(%x, %s) read %x after k2 := ConcatKey(.., %s) was built; it was %x", addr[:], strings.Join(op[3:], " "), k1, hx.Hex(wantB), wantA))
+		}
+		if string(k2) != string(wantB) {
+			r.Viol("C17:key-wrong:"+op[1], fmt.Sprintf("ConcatKey gives %x, the fields written in order are %x", k2, wantB))
+		}
+		return hx.Hex(k1) + " " + hx.Hex(k2)
+	}
+	bad := make(chan string, 2)
+	done := make(chan bool, 2)
+	work := func(fields [][]byte, want []byte) {
+		for i := 0; i < 300; i++ {
+			k := utils.ConcatKey(addr, fields...)
+			keep := utils.ConcatKey(addr, fields...)
+			if string(k) != string(want) || string(keep) != string(want) {
+				select {
+				case bad <- fmt.Sprintf("%x instead of %x", k, want):
+				default:
+				}
+				break
+			}
+		}
+		done <- true
+	}
+	go work(a, wantA)
+	go work(b, wantB)
+	<-done
+	<-done
+	select {
+	case m := <-bad:
+		r.Viol("C17:key-changed-by-concurrent-concat:"+op[1], "two goroutines building keys of one contract: a key read "+m)
+		return "corrupt"
+	default:
+	}
+	return "ok"
+}
+
 func (f *keysFam) Exec(r *hx.Run, op []string) string {
 	if len(op) < 3 {
 		return "bad-op"
+	}
+	if op[0] == "hold" || op[0] == "par" {
+		return f.holdOrPar(r, op)
 	}
 	label := op[1]
 	addr, err := common.AddressParseFromBytes(hx.UnHex(op[2]))
@@ -260,6 +330,15 @@ func (f *keysFam) Gen(r *hx.Run) {
 				if k%5 == 4 {
 					r.Do(fmt.Sprintf("del %s %s %s", label, c.Addr, strings.Join(args, " ")))
 					r.Do(fmt.Sprintf("get %s %s %s", label, c.Addr, strings.Join(args, " ")))
+				}
+			}
+			// a key kept alive while the next key of the same kind is built (short fields: total length within 48 bytes
+			// as well as long ones), sequentially and from two goroutines
+			for k := 0; k < r.Pick(2, 8); k++ {
+				a1, a2 := f.randArgs(r, s), f.randArgs(r, s)
+				r.Do(fmt.Sprintf("hold %s %s %s / %s", label, c.Addr, strings.Join(a1, " "), strings.Join(a2, " ")))
+				if k == 0 {
+					r.Do(fmt.Sprintf("par %s %s %s / %s", label, c.Addr, strings.Join(a1, " "), strings.Join(a2, " ")))
 				}
 			}
 			r.Nontrivial(label)
